@@ -59,35 +59,78 @@ func evalLit(l Lit, vars map[string]string, env map[string]int64) (bool, string)
 	return res == l.Val, ""
 }
 
-// selectPath returns the unique path whose literals all hold in env.
-func selectPath(paths []*Path, vars map[string]string, env map[string]int64) (*Path, string) {
-	var sel *Path
-	n := 0
-	for _, p := range paths {
-		ok := true
-		for _, l := range p.Lits {
-			holds, err := evalLit(l, vars, env)
+// PathEval is the outcome of executing one path on a valuation.
+type PathEval struct {
+	Path *Path
+	Env  map[string]int64 // final values of the model variables
+}
+
+// evalPath executes the events of p in program order on env: branch literals must hold;
+// stores to tracked access paths update the valuation. Literals over access paths that are
+// not tracked are treated as unconstrained when lenient is set.
+func evalPath(p *Path, vars map[string]string, env0 map[string]int64, lenient bool) (ok bool, final map[string]int64, problem string) {
+	env := map[string]int64{}
+	for k, v := range env0 {
+		env[k] = v
+	}
+	for _, ev := range p.Events {
+		if ev.Lit != nil {
+			holds, err := evalLit(*ev.Lit, vars, env)
 			if err != "" {
 				if strings.HasPrefix(err, "unknown:") {
-					return nil, "a branch reads " + strings.TrimPrefix(err, "unknown:") + ", which is not one of the decision's recognised inputs (condition: " + l.Atom.String() + ")"
+					if lenient {
+						continue
+					}
+					return false, nil, "a branch reads " + strings.TrimPrefix(err, "unknown:") + ", which is not one of the decision's recognised inputs (condition: " + ev.Lit.Atom.String() + ")"
 				}
 				if strings.HasPrefix(err, "undefined:") {
-					return nil, "the path evaluates " + l.Atom.String() + " although " + strings.TrimPrefix(err, "undefined:") + " is undefined here (nil dereference)"
+					return false, nil, "the path evaluates " + ev.Lit.Atom.String() + " although " + strings.TrimPrefix(err, "undefined:") + " is undefined here (nil dereference)"
 				}
-				return nil, err
+				return false, nil, err
 			}
 			if !holds {
-				ok = false
-				break
+				return false, nil, ""
+			}
+			continue
+		}
+		e := ev.Eff
+		if e.Kind == "store" || e.Kind == "mapupdate" {
+			if v, tracked := vars[e.Target]; tracked {
+				val, err := evalTerm(e.Val, vars, env)
+				if err != "" {
+					// non-nil pointer / unknown value: model as 1 for pointer-ish vars
+					val = 1
+				}
+				env[v] = val
 			}
 		}
+	}
+	return true, env, ""
+}
+
+// selectPaths returns every path consistent with the valuation.
+func selectPaths(paths []*Path, vars map[string]string, env map[string]int64, lenient bool) ([]PathEval, string) {
+	var out []PathEval
+	for _, p := range paths {
+		ok, fin, problem := evalPath(p, vars, env, lenient)
+		if problem != "" {
+			return nil, problem
+		}
 		if ok {
-			sel = p
-			n++
+			out = append(out, PathEval{Path: p, Env: fin})
 		}
 	}
-	if n == 1 {
-		return sel, ""
+	return out, ""
+}
+
+// selectPath returns the unique path whose literals all hold in env.
+func selectPath(paths []*Path, vars map[string]string, env map[string]int64) (*Path, string) {
+	sel, problem := selectPaths(paths, vars, env, false)
+	if problem != "" {
+		return nil, problem
 	}
-	return nil, fmt.Sprintf("%d paths are consistent with the valuation (expected exactly 1)", n)
+	if len(sel) == 1 {
+		return sel[0].Path, ""
+	}
+	return nil, fmt.Sprintf("%d paths are consistent with the valuation (expected exactly 1)", len(sel))
 }
